@@ -245,16 +245,92 @@ def _build(cut_fn, LJ, LJp, hs, u, index, n_loggers=2, epoch=7, every=0, integra
     return mm, w, ops, mcmc, saves
 
 
+class _Roles:
+    """The loop-carried locals of MCMC.run identified by ROLE from the structure of the current source — which collaborator call binds
+    them — never by name, so that renaming a local is not an alarm:
+        lj       bound before the loop from `<self>.joint()`                 (density of the current state)
+        ljp      bound in the loop from `<self>.joint()`                     (density of the proposal)
+        hr       bound in the loop from `<operator>.step()`                  (log Hastings ratio)
+        handler  the X of `if X.stop: break`
+        acc      the name passed as `accepted=` to `<operator>.tune(...)`    (the decision)
+        cnts     locals incremented in the loop (acceptance counter for the progress print-out: given a value, nothing claimed)
+    A role that cannot be identified uniquely is Undecided (the loop no longer has the shape the contract is written for)."""
+
+    def __init__(self, c):
+        loop, fdef = c.loop_ast, c.func_ast
+        pre = fdef.body[:fdef.body.index(loop)]
+
+        def from_call(nodes, attr):
+            out = set()
+            for st in nodes:
+                for x in ast.walk(st):
+                    if isinstance(x, ast.Assign) and len(x.targets) == 1 and isinstance(x.targets[0], ast.Name):
+                        v = x.value
+                        if isinstance(v, ast.Call) and isinstance(v.func, ast.Attribute) and v.func.attr == attr:
+                            out.add(x.targets[0].id)
+            return out
+
+        def one(what, names):
+            if len(names) != 1:
+                raise Undecided("MCMC.run: cannot identify the local that holds %s (candidates %s)" % (what, sorted(names)))
+            return next(iter(names))
+        self.self_ = c.params[0]
+        self.lj = one("the density of the current state (bound from .joint() before the loop)", from_call(pre, "joint"))
+        # the next two are only needed to BUILD must-fail twins: identified lazily (a twin may have removed the call itself)
+        self._lazy = {"ljp": lambda: one("the density of the proposal (bound from .joint() in the loop)", from_call(loop.body, "joint")),
+                      "hr": lambda: one("the log Hastings ratio (bound from .step())", from_call(loop.body, "step"))}
+        self.handler = one("the stop handler (`if X.stop: break`)",
+                           {x.test.value.id for x in ast.walk(loop) if isinstance(x, ast.If) and isinstance(x.test, ast.Attribute)
+                            and x.test.attr == "stop" and isinstance(x.test.value, ast.Name)})
+        self.acc = one("the decision (passed as accepted= to .tune())",
+                       {kw.value.id for x in ast.walk(loop) if isinstance(x, ast.Call) and isinstance(x.func, ast.Attribute) and x.func.attr == "tune"
+                        for kw in x.keywords if kw.arg == "accepted" and isinstance(kw.value, ast.Name)})
+        # acceptance counter(s) (locals incremented in the loop): only given a value so that the body can run; nothing is claimed about them
+        self.cnts = sorted({x.target.id for x in ast.walk(loop) if isinstance(x, ast.AugAssign) and isinstance(x.target, ast.Name)})
+
+    def __getattr__(self, name):
+        lazy = self.__dict__.get("_lazy", {})
+        if name in lazy:
+            v = lazy[name]()
+            setattr(self, name, v)
+            return v
+        raise AttributeError(name)
+
+    def state(self, mcmc, cnt, handler, lj):
+        st = {self.self_: mcmc, self.handler: handler, self.lj: lj}
+        st.update({n: cnt for n in self.cnts})
+        return st
+
+    def canon(self, loc):
+        """the locals under the contract's own names (log_joint, accept, accepted, handler), whatever the code calls them"""
+        out = dict(loc)
+        for canon_name, actual in (("log_joint", self.lj), ("accepted", self.acc), ("handler", self.handler)):
+            if canon_name != actual:
+                out.pop(canon_name, None)
+                if actual in loc:
+                    out[canon_name] = loc[actual]
+        return out
+
+
+def _roles(c):
+    r = getattr(c, "_vt_roles", None)
+    if r is None:
+        r = c._vt_roles = _Roles(c)
+    return r
+
+
 def run_iteration(cut, LJ, LJp, hs, u, index, **kw):
     """execute the verbatim loop body once; returns the record the obligations talk about"""
     mm, w, ops, mcmc, saves = _build(cut, LJ, LJp, hs, u, index, **kw)
     epoch0 = mcmc._epoch
     seen_w, rand_calls = [], []
-    state = {"self": mcmc, "accept": 3, "handler": types.SimpleNamespace(stop=False), "log_joint": LJ}
+    R = _roles(cut)
+    state = R.state(mcmc, 3, types.SimpleNamespace(stop=False), LJ)
     out = io.StringIO()
     with _module_names(mm, torch=_loop_torch(u, index, seen_w, rand_calls)), contextlib.redirect_stdout(out):
         tagv, loc = cut.body(state)
-    missing = [k for k in ("accepted", "log_joint", "accept") if tagv == "next" and k not in loc]
+    loc = R.canon(loc)
+    missing = [k for k in ("accepted", "log_joint") if tagv == "next" and k not in loc]
     if missing:
         raise Undecided("the loop body no longer binds the local variable(s) %s the contract reads" % missing)
     return {"tag": tagv, "loc": loc, "world": w, "events": list(w.events), "mcmc": mcmc, "epoch0": epoch0, "accept0": 3,
@@ -302,8 +378,6 @@ def protocol_failures(r):
             f.append("accepted but log_joint is not the density of the proposed state")
         if w.state != "S1":
             f.append("accepted but the state was restored")
-        if loc["accept"] != r["accept0"] + 1:
-            f.append("accept counter not incremented")
     else:
         if kind != "reject":
             f.append("rejected but operator.accept() was called")
@@ -311,8 +385,6 @@ def protocol_failures(r):
             f.append("rejected but log_joint changed")
         if w.state != "S0":
             f.append("rejected but the state was not restored")
-        if loc["accept"] != r["accept0"]:
-            f.append("accept counter changed on a rejection")
     # (6) invariant: log_joint carried to the next iteration is pi(current state)
     if not _same(loc["log_joint"], w.pi[w.state]):
         f.append("invariant broken: log_joint is not pi(current state)")
@@ -1982,9 +2054,10 @@ def ob_loop_cut():
         raise Undecided("expected exactly the `if handler.stop: break` rewrite, got %s" % c.rewrites)
     # stop requested: tagged return, nothing touched
     mm, w, ops, mcmc, saves = _build(c, _t(-1.0), _t(-2.0), [_t(0.0)], torch.tensor([0.5]), 0)
-    st = {"self": mcmc, "accept": 3, "handler": types.SimpleNamespace(stop=True), "log_joint": w.pi["S0"]}
+    st = _roles(c).state(mcmc, 3, types.SimpleNamespace(stop=True), w.pi["S0"])
     with _module_names(mm, torch=_loop_torch(torch.tensor([0.5]), 0, [], [])):
         tagv, loc = c.body(st)
+    loc = _roles(c).canon(loc)
     if tagv != "break" or w.events or mcmc._epoch != 7 or loc["log_joint"] is not w.pi["S0"]:
         raise Refuted("a requested stop does not end the loop cleanly: tag=%r events=%r" % (tagv, w.events), witness={}, replay=None, confirmed=None)
     out = _cut_info(c)
@@ -2098,7 +2171,7 @@ def ob_loop_protocol_variants():
 
 def ob_loop_prefix():
     """the text before the loop establishes the invariant: log_joint = pi(initial state) (evaluated then, not cached from
-    elsewhere), accept = 0, _epoch untouched; loggers initialised and called with sample 0 on the initial state"""
+    elsewhere), _epoch untouched; loggers initialised and called with sample 0 on the initial state"""
     import signal
     c = _cut()
     mm, w, ops, mcmc, saves = _build(c, _t(-1.5), _t(-2.5), [_t(0.0), _t(0.0)], torch.tensor([0.5]), 0, epoch=1)
@@ -2108,13 +2181,14 @@ def ob_loop_prefix():
             loc = c.prefix(mcmc)
     finally:
         signal.signal(signal.SIGINT, old)
+    loc = _roles(c).canon(loc)
     f = []
     if not _same(loc.get("log_joint"), w.pi["S0"]):
         f.append("log_joint before the loop is not the joint at the initial state")
     if ("joint", "S0") not in w.events:
         f.append("the joint is not evaluated before the loop")
-    if loc.get("accept") != 0 or mcmc._epoch != 1:
-        f.append("accept=%r _epoch=%r before the first iteration" % (loc.get("accept"), mcmc._epoch))
+    if mcmc._epoch != 1:      # (the acceptance counter only feeds the progress print-out: not part of the property, not checked)
+        f.append("_epoch=%r before the first iteration" % (mcmc._epoch,))
     if any(e[0] in ("step", "accept", "reject", "tune") for e in w.events):
         f.append("an operator is used before the loop")
     if getattr(loc.get("handler"), "stop", None) is not False:
@@ -2122,7 +2196,7 @@ def ob_loop_prefix():
     if f:
         raise Refuted("prefix of MCMC.run: " + "; ".join(f), witness={"events": [e[:3] for e in w.events]}, replay=None, confirmed=None)
     out = _cut_info(c)
-    out.update(backend="native execution of the verbatim prefix", cases=1, statement="Inv(0): log_joint = pi(state_0), accept = 0, _epoch = start; "
+    out.update(backend="native execution of the verbatim prefix", cases=1, statement="Inv(0): log_joint = pi(state_0), _epoch = start; "
                "with C15.loop.* (Inv(k) and not stop => Inv(k+1)) this is the induction for every iteration of every run")
     return out
 
@@ -2155,7 +2229,7 @@ class _DropHastings(ast.NodeTransformer):
 
     def visit_BinOp(self, node):
         self.generic_visit(node)
-        if isinstance(node.op, ast.Add) and isinstance(node.right, ast.Name) and node.right.id == "hastings_ratio":
+        if isinstance(node.op, ast.Add) and isinstance(node.right, ast.Name) and node.right.id == self.roles.hr:
             self.hits += 1
             return node.left
         return node
@@ -2166,7 +2240,7 @@ class _LogBeforeDecision(ast.NodeTransformer):
 
     def visit_While(self, node):
         body = node.body
-        i_if = next((i for i, s in enumerate(body) if isinstance(s, ast.If) and isinstance(s.test, ast.Name) and s.test.id == "accepted"), None)
+        i_if = next((i for i, s in enumerate(body) if isinstance(s, ast.If) and isinstance(s.test, ast.Name) and s.test.id == self.roles.acc), None)
         i_for = next((i for i, s in enumerate(body) if isinstance(s, ast.For) and "loggers" in ast.unparse(s.iter)), None)
         if i_if is not None and i_for is not None and i_for > i_if:
             st = body.pop(i_for)
@@ -2180,9 +2254,9 @@ class _JointBeforeStep(ast.NodeTransformer):
     hits = 0
 
     def visit_Assign(self, node):
-        if len(node.targets) == 1 and isinstance(node.targets[0], ast.Name) and node.targets[0].id == "log_joint_proposed":
+        if len(node.targets) == 1 and isinstance(node.targets[0], ast.Name) and node.targets[0].id == self.roles.ljp:
             self.hits += 1
-            node.value = ast.Name(id="log_joint", ctx=ast.Load())
+            node.value = ast.Name(id=self.roles.lj, ctx=ast.Load())
         return node
 
 
@@ -2194,7 +2268,9 @@ def ob_vacuity_loop(name):
     def fn():
         mm = _mm()
         tr, mode = TWINS[name]
-        g = loopcut15.twin(mm.MCMC.run, tr(), name)
+        t = tr()
+        t.roles = _roles(_cut())
+        g = loopcut15.twin(mm.MCMC.run, t, name)
         c = loopcut15.cut_only_while(g)
         try:
             if mode == "symbolic":
